@@ -57,11 +57,12 @@ PROPS = {
         'classes': {1: 'double-release', 2: 'released-while-application-holds-it', 3: 'content-changed-while-held',
                     4: 'written-after-release', 5: 'handed-to-application-after-release'},
         'trusted': ['hook message/pool (release / recycle / re-acquire notifications, poison helpers; add-only, build tag verif)',
-                    'harness/pooltrack.go: object numbering by pointer, digest of message content at hand-over and at the end of the hold'],
+                    'harness/pooltrack.go: object numbering by pointer, digest of message content at hand-over and at the end of the hold, goroutine id of every event (family E windows)',
+                    'hooks udp/client VerifSizes (token-handler count: witness that a waiting caller was handed a message) and net/blockwise VerifTableSizes (receivingMessagesCache size), both read-only'],
         'assumptions': ['sync.Pool hands out only objects that were Put', 'the order of tracker events is the order in which the hooks took the tracker lock (a linearisation of the real events)'],
-        'level_text': 'PARTIAL. Coq theorems (Properties/C12.v): the ownership automaton accepts only traces that satisfy the property as stated (no double release, no recycling or change while the application holds a message, no use after release); the library paths as modelled (receive, receive-with-hijack, request with clone and retransmission temporaries) are accepted, and so is EVERY interleaving of accepted traces over disjoint objects. That the Go code follows no other path is established by running the monitor on complete lifecycle traces of real executions (sequential histories of C05/C06 and concurrent scenarios), not by proof.',
+        'level_text': 'PARTIAL. Coq theorems (Properties/C12.v): the ownership automaton accepts only traces that satisfy the property as stated (no double release, no recycling or change while the application holds a message, no use after release); the library paths as modelled (receive, receive-with-hijack, request with clone and retransmission temporaries, net/client calls, block-wise up/download, notifications, AsyncPing, response-writer SetMessage/Swap, and EVERY return point of the block-wise receive path incl. its error returns) are accepted, any response-writer program that keeps the ownership discipline (wdisc) is accepted, and so is EVERY interleaving of accepted traces over disjoint objects; the pool counter is bounded. That the Go code follows no other path is established by running the monitor on complete lifecycle traces of real executions and, for the block-wise receive path, by comparing the events of every received datagram with the modelled path event by event - not by proof.',
         'level_note': 'Level other: theorem about the model of the paths + runtime monitoring of the real code through a verif-tagged tracker in the pool; reads after release are invisible to the tracker (only writes break the poison pattern).',
-        'explanation': 'What is proved: monitor soundness, rejection of the named violations, safety of the modelled paths and of all their interleavings (Pool/Proofs.v). What is only observed: the real lifecycle traces (release, recycle, re-acquire with poison check, application hold/unhold with content digest) of server-role histories, client-role histories and concurrent mixed scenarios are accepted by the monitor and never exceed the pool bound.',
+        'explanation': 'What is proved: monitor soundness, rejection of the named violations, safety of the modelled paths and of all their interleavings (Pool/Proofs.v, Pool/Paths.v), safety of every disciplined response-writer program and of all return points of the block-wise receive path, rejection of the early-install-plus-manual-release variant (Pool/Writer.v), boundedness of the pool counter (Pool/BoundedProofs.v). What is only observed: the real lifecycle traces (release, recycle, re-acquire with poison check, application hold/unhold with content digest) of server-role histories, client-role histories, concurrent mixed scenarios, tcp and udp client/server pairs and scripted block-wise exchanges (family E: per received datagram the events of the receive goroutine equal the modelled path for the observed return point) are accepted by the monitor and never exceed the pool bound.',
     },
 }
 
